@@ -968,7 +968,11 @@ func callBuiltin(caller *frame, callpos token.Pos, fn *ssa.Builtin, args []value
 			return arg0
 		}
 		// append([]T, ...[]T) []T
-		return goAppend(args[0].([]value), cloneCells(args[1].([]value)))
+		var esz int64 = 8
+		if sl, ok := fn.Type().(*types.Signature).Params().At(0).Type().Underlying().(*types.Slice); ok && caller != nil {
+			esz = caller.i.sizes.Sizeof(sl.Elem())
+		}
+		return goAppendSized(args[0].([]value), cloneCells(args[1].([]value)), esz)
 
 	case "copy": // copy([]T, []T) int or copy([]byte, string) int
 		src := args[1]
